@@ -196,6 +196,20 @@ func init() {
 					lon, lat, alt, lon2, lat2, alt2 = lon2, lat2, alt2, lon, lat, alt
 				}
 			}
+			if rng.Intn(15) == 0 {
+				// longitude exactly 180 is the western edge: an end point there and one in the westernmost column are in the
+				// SAME voxel (one ID), although their longitudes are 360 degrees apart
+				h = int64(1 + rng.Intn(14))
+				if sp {
+					v = h
+				}
+				lon = 180
+				lon2 = -180 + rng.Float64()*0.9*(360/math.Pow(2, float64(h)))
+				lat2, alt2 = lat, alt
+				if rng.Intn(2) == 0 {
+					lon, lon2 = lon2, lon
+				}
+			}
 			args := []string{fbits(lon), fbits(lat), fbits(alt), fbits(lon2), fbits(lat2), fbits(alt2)}
 			switch rng.Intn(60) {
 			case 0:
